@@ -10,7 +10,7 @@ from core import Case, Line, case_rng
 import proto
 import treegen
 import cli
-from impl import trees, treeinput, quiet, mk_leaf, mk_node
+from impl import trees, treeinput, transform, quiet, mk_leaf, mk_node
 
 ID = "C01"
 MODULE = ['TT.Props.C01', 'TT.Props.C01More']
@@ -78,12 +78,23 @@ def sid_trees(pairs):
 
 def run_reader(fmt, path, opts):
     try:
+        got = []
         with quiet():
-            got = list(getattr(treeinput, fmt)(path, "utf-8", quiet=True, **opts))
-        bad = [t for t in got if proto.enc_tree_checked(t).startswith("GRAPH")]
-        if bad:
-            return proto.enc_tree_checked(bad[0])
-        return "EMPTY" if not got else "|".join("%d:%s" % (t.data['sid'], proto.enc_tree(t, canon=True)) for t in got)
+            for i, t in enumerate(getattr(treeinput, fmt)(path, "utf-8", quiet=True, **opts)):
+                chk = proto.enc_tree_checked(t)
+                if chk.startswith("GRAPH"):
+                    return chk
+                got.append("%d:%s" % (t.data['sid'], proto.enc_tree(t, canon=True)))
+                # the consumer does something with each tree before asking for the next one, as transform.run does;
+                # what is read afterwards must not depend on it
+                try:
+                    if i % 2 == 0:
+                        transform.ptb_delete_traces(t)
+                    else:
+                        transform.binarize(transform.negra_mark_heads(t))
+                except Exception:
+                    pass
+        return "EMPTY" if not got else "|".join(got)
     except Exception as e:
         return proto.err_name(e)
 
@@ -289,7 +300,7 @@ def group_case(text, emptypos, group):
 
 def gen(seed, tier, scale):
     idx = 0
-    L = 6 if tier == "quick" else 8
+    L = 7 if tier == "quick" else 8
     for n in range(1, L + 1):
         for tup in itertools.product("() a", repeat=n):
             text = "".join(tup)
